@@ -195,6 +195,15 @@ Definition plain_ctx (x : ctx) : bool :=
                     | FMulti t0 b t a => plain_msg (t0 ++ ops_msg b) && plain_msg (t ++ ops_msg a)
                     end) x.
 
+(* the texts the property's clause on embedded objects quantifies over: "arbitrary message texts (including ones
+   containing JSON, colons and the embed marker's neighbours)" - no text contains a complete marker, none forms
+   across a junction (all texts of the built value are well-formed tokens), pieces of the marker (a lone ESC,
+   "\x1bjso", "json") are allowed; the side operands bring no class and no status error into the tree.  These are the
+   hypotheses of C19_embed_survives. *)
+Definition neighbour_ctx (c : case) : bool :=
+  ctx_marker_free (c_ctx c) && ctx_sides_ok (c_ctx c)
+  && match model_err c with Some (Some e) => err_wf e | Some None => true | None => false end.
+
 (* exactly one class per tree: every side operand of every layer is free of
    status errors and the only class errors.Is can find in it is cl itself
    (two different classes in one tree make the result of GRPCStatusCode
@@ -236,8 +245,8 @@ Definition check_property (c : case) : bool :=
                | Some o => oobj_eqb (o_ext (c_w c)) (Some o) && oobj_eqb (o_ext (c_t c)) (Some o)
                | None => true
                end
-            (* one object embedded into a chain of plain texts is extractable *)
-            && (if plain_ctx (c_ctx c)
+            (* one object embedded into a chain of texts without a complete marker is extractable *)
+            && (if plain_ctx (c_ctx c) || neighbour_ctx c
                 then match ctx_embeds (c_ctx c) with
                      | [o] => oobj_eqb (o_ext (c_e c)) (Some o)
                      | _ => true
@@ -246,7 +255,7 @@ Definition check_property (c : case) : bool :=
           else
             (* EmbedObject may refuse texts with markers and second embeds, not a
                first embed into plain texts *)
-            negb (plain_ctx (c_ctx c) && Nat.leb (length (ctx_embeds (c_ctx c))) 1)
+            negb ((plain_ctx (c_ctx c) || neighbour_ctx c) && Nat.leb (length (ctx_embeds (c_ctx c))) 1)
   | LStatus k _ =>
       (* every non-OK code maps back to a class, never to nil *)
       if c_built c && negb (code_eqb k OK) then is_some_class (o_from (c_e c)) else true
